@@ -191,8 +191,18 @@ numerical_enum! {
 }
 
 impl Qcow2RawHeader {
+    /// length of the serialized header: version 2 headers end after
+    /// `snapshots_offset`
+    pub fn serialized_len(&self) -> usize {
+        if self.version == 2 {
+            Qcow2Header::V2_HEADER_LENGTH as usize
+        } else {
+            size_of::<Self>().align_up(8usize).unwrap()
+        }
+    }
+
     pub fn serialize_vec(&mut self) -> Qcow2Result<Vec<u8>> {
-        self.header_length = size_of::<Self>().align_up(8usize).unwrap().try_into()?;
+        self.header_length = self.serialized_len().try_into()?;
 
         let bincode = bincode::DefaultOptions::new()
             .with_fixint_encoding()
@@ -200,6 +210,8 @@ impl Qcow2RawHeader {
 
         let mut header_buf = bincode.serialize(self)?;
         header_buf.resize(header_buf.len().align_up(8usize).unwrap(), 0);
+        // the version 3 fields are not part of a version 2 header
+        header_buf.truncate(self.header_length as usize);
 
         assert!(header_buf.len() == self.header_length as usize);
 
@@ -245,6 +257,7 @@ impl Qcow2Header {
     pub const MAX_CLUSTER_SIZE: u32 = 2_u32 << 20;
     pub const MAX_L1_SIZE: u32 = 32_u32 << 20;
     pub const MAX_REFCOUNT_TABLE_SIZE: u32 = 8_u32 << 20;
+    pub const V2_HEADER_LENGTH: u32 = 72;
 
     pub fn from_buf(header_buf: &[u8]) -> Qcow2Result<Self> {
         let bincode = bincode::DefaultOptions::new()
@@ -262,9 +275,16 @@ impl Qcow2Header {
             return Err(format!("qcow2 v{v} is not supported").into());
         }
 
-        // refcount_order is always 4 for version 2
+        // A version 2 header ends after `snapshots_offset` (72 bytes): what
+        // follows is the extension area, not header fields. refcount_order
+        // is always 4 and there are no feature bits.
         if header.version == 2 {
             header.refcount_order = 4;
+            header.header_length = Self::V2_HEADER_LENGTH;
+            header.incompatible_features = 0;
+            header.compatible_features = 0;
+            header.autoclear_features = 0;
+            header.compression_type = 0;
         }
 
         let cluster_bits = header.cluster_bits;
@@ -523,7 +543,7 @@ impl Qcow2Header {
     }
 
     pub fn serialize_to_buf(&mut self) -> Qcow2Result<Vec<u8>> {
-        let header_len = size_of::<Qcow2RawHeader>().align_up(8usize).unwrap();
+        let header_len = self.raw.serialized_len();
         let mut header_exts = self.serialize_extensions()?;
 
         if let Some(backing) = self.backing_filename.as_ref() {
